@@ -1,1 +1,90 @@
-From Ring Require Import ChanModel ChanGhost.
+(* Properties_C01.v -- C01: the channel delivers every committed byte to each reader exactly once, in order;
+   an empty read means drained.  Statements only; proofs are in ChanInv / ChanLog / ChanStream / ChanTheorems.
+   Model: ChanModel (channel.c, field by field) + ChanGhost (log indices).  [grun] runs any well-formed
+   history (one writer mapping then committing or aborting, any sizes, accept/refuse toggles, up to 8 readers
+   joining at any time, any per-read consumed count); it is None only for ill-formed histories. *)
+From Coq Require Import ZArith List Bool Lia.
+From Ring Require Import ChanModel ChanGhost ChanInv ChanLog ChanStream ChanTheorems.
+Import ListNotations.
+Local Open Scope Z_scope.
+
+(* Every reachable state satisfies the ring invariant (any capacity, any history length). *)
+Theorem C01_invariant_reachable : forall c ops g,
+  0 < c -> grun (ginit c) ops = Some g -> Inv g.
+Proof. exact reachable_inv. Qed.
+Print Assumptions C01_invariant_reachable.
+
+(* Exactly-once, in-order, unaltered: over ANY continuation [ops2] of ANY reachable state, the ring cells
+   reader i consumes through its unmaps are, in order, the log bytes cursor, cursor+1, ... (Some = committed
+   and not overwritten), and its cursor has advanced by exactly that many bytes. *)
+Theorem C01_stream_exact : forall c ops1 ops2 g1 g2 i r,
+  0 < c -> grun (ginit c) ops1 = Some g1 -> grun g1 ops2 = Some g2 ->
+  nth_error (rds (cs g1)) i = Some r ->
+  exists r', nth_error (rds (cs g2)) i = Some r' /\
+    delivered g1 ops2 i = map Some (zrange (idx g1 r) (length (delivered g1 ops2 i))) /\
+    idx g2 r' = idx g1 r + Z.of_nat (length (delivered g1 ops2 i)).
+Proof. intros c ops1 ops2 g1 g2 i r Hc E1 E2 Hn.
+  exact (stream_exact ops2 g1 g2 i r (reachable_inv c ops1 g1 Hc E1) E2 Hn). Qed.
+Print Assumptions C01_stream_exact.
+
+(* What a read hands out: the next unread bytes of that reader (its cursor is unchanged by the map), inside the
+   buffer and inside the committed log; a reader that joins starts at a write boundary <= the log length;
+   and an EMPTY read happens only when the cursor equals the log length (drained). *)
+Theorem C01_read_returns_next_unread : forall c ops g i g' res,
+  0 < c -> grun (ginit c) ops = Some g -> wf_op g (OReadMap i) -> gstep g (OReadMap i) = (g', res) ->
+  exists rr r', res = ResR rr /\ nth_error (rds (cs g')) i = Some r' /\
+    loglen g' = loglen g /\ 0 <= rlen rr /\
+    (forall r, nth_error (rds (cs g)) i = Some r -> idx g' r' = idx g r) /\
+    (nth_error (rds (cs g)) i = None ->
+       idx g' r' = loglen g - head (cs g) /\ In (idx g' r') (bounds g) /\ idx g' r' <= loglen g) /\
+    (0 < rlen rr ->
+       0 <= roff rr /\ roff rr + rlen rr <= cap (cs g') /\ idx g' r' + rlen rr <= loglen g' /\
+       forall j, 0 <= j < rlen rr -> cell g' (roff rr + j) = Some (idx g' r' + j)) /\
+    (rlen rr = 0 -> idx g' r' = loglen g').
+Proof. intros c ops g i g' res Hc E. exact (read_returns_next_unread g i g' res (reachable_inv c ops g Hc E)). Qed.
+Print Assumptions C01_read_returns_next_unread.
+
+Theorem C01_empty_means_drained : forall c ops g i g' rr,
+  0 < c -> grun (ginit c) ops = Some g -> wf_op g (OReadMap i) ->
+  gstep g (OReadMap i) = (g', ResR rr) -> rlen rr = 0 ->
+  exists r', nth_error (rds (cs g')) i = Some r' /\ idx g' r' = loglen g'.
+Proof. intros c ops g i g' rr Hc E W G Hz.
+  destruct (read_returns_next_unread g i g' _ (reachable_inv c ops g Hc E) W G)
+    as (rr' & r' & Hr & Hn & _ & _ & _ & _ & _ & Hd).
+  inversion Hr; subst rr'. exists r'. split; [exact Hn|]. apply Hd. exact Hz. Qed.
+Print Assumptions C01_empty_means_drained.
+
+(* An unmap moves the cursor by exactly min(consumed, slice length) and leaves every other reader alone. *)
+Theorem C01_unmap_advances : forall c ops g i k r,
+  0 < c -> grun (ginit c) ops = Some g -> 0 <= k ->
+  nth_error (rds (cs g)) i = Some r -> rmapped r = true ->
+  let g' := fst (gstep g (OReadUnmap i k)) in
+  exists r', nth_error (rds (cs g')) i = Some r' /\ rmapped r' = false /\
+    idx g' r' = idx g r + Z.min (avail r (high (cs g))) k /\
+    loglen g' = loglen g /\
+    forall j, j <> i -> nth_error (rds (cs g')) j = nth_error (rds (cs g)) j.
+Proof. intros c ops g i k r Hc E. exact (unmap_advances g i k r (reachable_inv c ops g Hc E)). Qed.
+Print Assumptions C01_unmap_advances.
+
+(* The Overflow / Error branches of channel_read_map are dead on well-formed histories. *)
+Theorem C01_no_overflow_status : forall c ops g r,
+  0 < c -> grun (ginit c) ops = Some g -> In r (rds (cs g)) -> rstatus r = 0.
+Proof. intros c ops g r Hc E. exact (status_ok g r (reachable_inv c ops g Hc E)). Qed.
+Print Assumptions C01_no_overflow_status.
+
+(* ---- non-vacuity: a reachable state with a wrapped writer, a lagging mapped reader and a caught-up one ---- *)
+Definition ex_ops : list op :=
+  [OWriteMap 3; OCommit; OReadMap 0%nat; OReadUnmap 0%nat 3; OWriteMap 3; OCommit; OReadMap 1%nat;
+   OReadMap 0%nat; OWriteMap 2; OAbort; OAccept false; OAccept true; OReadUnmap 0%nat 1; OReadMap 0%nat].
+
+Example ex_reachable : exists g, grun (ginit 5) ex_ops = Some g /\ cyc (cs g) = 1 /\ length (rds (cs g)) = 2%nat /\
+  loglen g = 6 /\ exists r, nth_error (rds (cs g)) 0 = Some r /\ rmapped r = true /\ idx g r = 4.
+Proof. eexists. split; [vm_compute; reflexivity|]. vm_compute. repeat split. eexists. repeat split. Qed.
+
+(* the D1 history (reader exactly at `high` when the writer wraps): the read after the wrap is NOT empty *)
+Example ex_d1_fixed :
+  match grun (ginit 5) [OWriteMap 3; OCommit; OReadMap 0%nat; OReadUnmap 0%nat 3; OWriteMap 3; OCommit] with
+  | Some g => snd (gstep g (OReadMap 0%nat)) = ResR (mkRres 0 3 true)
+  | None => False
+  end.
+Proof. vm_compute. reflexivity. Qed.
